@@ -1402,10 +1402,14 @@ def _message_round(checker, rng, network):
 	_perturb_signature(checker, rng, network, public_key, message, signature, bits)
 
 
-def _voting_round(checker, rng):
+def _voting_round(checker, rng, number=None):
 	secret = gen_secret(rng)
 	start = rng.choice([0, 1, 7, rng.boundary_int(40)])
 	length = rng.choice([0, 1, 2, 3, 5])
+	if number is not None and number < 3:
+		# the first rounds of every run: a tree that starts at epoch 0 (key identifier 0 is a genuine identifier, not "none"), with
+		# several entries, one entry and the degenerate range
+		start, length = 0, [3, 1, 0][number]
 	stop = start + length - 1 if start + length >= 1 else 0
 	if rng.random() < 0.1:
 		start, stop = rng.choice([(1 << 64, (1 << 64) + 1), (5, 1 << 64), (9, 3)])
@@ -1534,8 +1538,8 @@ def run(ctx):
 		for _ in range(ctx.scale(3, 40)):
 			_attach_round(checker, rng, network)
 		checker.settle()
-	for _ in range(ctx.scale(8, 150)):
-		_voting_round(checker, rng)
+	for number in range(ctx.scale(8, 150)):
+		_voting_round(checker, rng, number)
 	checker.settle()
 	if ctx.thorough:
 		# every single-bit flip of transaction, signature and key for a number of signatures
